@@ -75,6 +75,9 @@ def natural_matrix(ctx):
         # adaptive + screening, proposal not clipped: the window rule counts solve steps, not screening iterations
         dict(dev="bar", screening=True, tol=1e-2, alpha=0.5, beta=0.5, dt_init=2.0 ** -8, dt_max=0.25, window=4,
              current=20.0, field=1.0, solve_time=1.0, k=10),
+        # the same micron-size device described in metres: coordinates ~1e-6 in the kernel (no absolute length scale)
+        dict(dev="bar", length_units="m", scale=1e-6, screening=True, tol=1e-3, dt_init=d6, dt_max=0.1, current=4.0, field=0.5,
+             solve_time=0.1, k=2),
         # iteration limit hit -> RuntimeError
         dict(dev="bar", screening=True, tol=1e-4, maxiter=2, dt_init=d6, dt_max=0.1, current=4.0, field=0.5, solve_time=0.3, k=3),
         # screening disabled: induced potential identically zero in every frame
@@ -90,6 +93,10 @@ def natural_matrix(ctx):
                 out.append(dict(dev=dev, screening=True, tol=tol, alpha=alpha, beta=beta, dt_init=d6, dt_max=0.1,
                                 adaptive=(alpha != 1.0), current=3.0 if dev == "bar" else 2.0, field=0.8,
                                 solve_time=0.2, k=3))
+    out.append(dict(dev="barhole", length_units="mm", scale=1e-3, screening=True, tol=1e-3, alpha=0.5, beta=0.5, dt_init=d6, dt_max=0.1,
+                    current=2.0, field=0.8, solve_time=0.15, k=2))
+    out.append(dict(dev="bar", length_units="nm", scale=1e3, screening=True, tol=1e-3, dt_init=d6, dt_max=0.1, current=4.0, field=0.5,
+                    solve_time=0.1, k=2))
     out.append(dict(dev="ring", screening=True, tol=1e-3, alpha=0.5, beta=0.5, dt_init=d6, dt_max=0.1, field=2.0, solve_time=0.3, k=3))
     out.append(dict(dev="tee", screening=True, tol=1e-3, dt_init=d6, dt_max=0.1, current=3.0, field=0.5, solve_time=0.2, k=3))
     out.append(dict(dev="barhole", screening=True, tol=1e-3, maxiter=1, dt_init=d6, dt_max=0.1, current=4.0, field=0.5, solve_time=0.3, k=3))
@@ -99,7 +106,7 @@ def natural_matrix(ctx):
 def kernel_part(ctx):
     """ScreenKernel: theorems + instances from TLC; real kernel and reference validated by TLC."""
     nsites = 3 if ctx.quick else 4
-    gen = ctx.model_check("ScreenKernel", sc.kernel_cfg(["Linear", "AreaIsWeight", "OrderIndependent", "Emit"], spec="GSpec", nsites=nsites),
+    gen = ctx.model_check("ScreenKernel", sc.kernel_cfg(["Linear", "AreaIsWeight", "OrderIndependent", "ScaleCovariant", "Emit"], spec="GSpec", nsites=nsites),
                           name="ScreenKernel[theorems + instances]", timeout=1200, workers=6)
     ctx.model_check("ScreenKernel", sc.kernel_cfg(["AreaNeverMatters"], spec="GSpec", nsites=2), name="ScreenKernel[area weight is visible]",
                     expect_violation="AreaNeverMatters", count=False, workers=2)
@@ -171,6 +178,11 @@ def run(ctx):
     sens = sum(1 for t in rand if t["qnoarea"] >= 10 ** 6) / max(1, len(rand))     # share that would see a dropped area weight
     if nexact < 100 or len(rand) < 50 or sens < 0.8:
         raise core.MachineryFailure(f"kernel instances too few or insensitive to the area weight: {nexact} {sens}")
+    scales = sorted({t["scale2"] for t in ktraces if t["kind"] == "exact"})
+    small = sum(1 for t in rand if t["log10_extent"] < -6)
+    if scales != sorted(sc.KERNEL_SCALES2) or small < 10:
+        raise core.MachineryFailure(f"kernel instances do not cover the coordinate scales: {scales}, {small} random instances below 1e-6")
+    ctx.cov["kernel_coordinate_scales"] = {"exact_instances_2^e": scales, "random_extent_log10": [-9, 3]}
     ctx.cov["kernel"] = {"exact_instances": nexact, "random_instances": len(ktraces) - nexact,
                          "worst_random_mismatch_1e-15": worst, "share_of_random_instances_sensitive_to_the_area_weight": round(sens, 3)}
     ctx.cov["max_frame_mismatch_over_tolerance"] = max((t["stats"]["max_frame_mismatch_over_tol"] for t in scr), default=0)
